@@ -19,7 +19,7 @@ type MFCase struct {
 	Mode   string     `json:"mode"`  // "", "ea"
 	Out    string     `json:"out"`
 	Nul    bool       `json:"nul"`
-	BadAt  int        `json:"bad_at"` // index of a file replaced by malformed text, -1 for none
+	BadAt  int        `json:"bad_at"`        // index of a file replaced by malformed text, -1 for none
 	Cut    int        `json:"cut,omitempty"` // > 0: the malformed file is the well-formed text cut off after that many per mille of its bytes
 }
 
